@@ -168,6 +168,35 @@ def cmdGenblock (m : List (String × String)) : Option String := do
   let idx ← (← get m "idx").toNat?
   pure s!"label={bytesToHex (Gens.chainLabel k party)} offset={Gens.chainOffset idx}"
 
+/-- ops: `n` = next, `h` = size_hint, `t<j>` = nth(j); reply: item as `party.idx`, `-` for None, `h<size>` -/
+def cmdGeniter (m : List (String × String)) : Option String := do
+  let n ← (← get m "n").toNat?
+  let mm ← (← get m "m").toNat?
+  let ops := (← get m "ops").splitOn ","
+  let show_ := fun (o : Option (Nat × Nat)) => match o with | some (p, i) => s!"{p}.{i}" | none => "-"
+  let rec go (ops : List String) (s : Gens.It) (acc : List String) : Option (List String) :=
+    match ops with
+    | [] => some acc.reverse
+    | op :: rest =>
+      if op == "n" then let (s', o) := s.next; go rest s' (show_ o :: acc)
+      else if op == "h" then go rest s (s!"h{s.sizeHint}" :: acc)
+      else if op.startsWith "t" then
+        match (op.drop 1).toNat? with
+        | some j => let (s', o) := Gens.It.nth j s; go rest s' (show_ o :: acc)
+        | none => none
+      else none
+  let outs ← go ops (Gens.It.start n mm) []
+  pure s!"out={",".intercalate outs}"
+
+/-- how strongly a member is bound into the batch weights: bits of its digest in the weight transcript -/
+def cmdWeightbind (m : List (String × String)) : Option String := do
+  let k ← (← get m "k").toNat?
+  pure s!"bits={8 * Transcript.weightDigestBytes} appends={(Transcript.weightEvents (List.replicate k [])).length}"
+
+/-- the space the batch weights are drawn from: wide reduction of `scalarDrawBytes` bytes, i.e. the whole field -/
+def cmdWeightratio (_ : List (String × String)) : Option String :=
+  some s!"drawbytes={Model.scalarDrawBytes} fieldbits=253"
+
 def cmdTableorder (m : List (String × String)) : Option String := do
   let bits ← (← get m "bits").toNat?
   let cap ← (← get m "cap").toNat?
@@ -359,6 +388,9 @@ def step (line : String) : String :=
       | "events" => cmdEvents m
       | "genblock" => cmdGenblock m
       | "tableorder" => cmdTableorder m
+      | "geniter" => cmdGeniter m
+      | "weightbind" => cmdWeightbind m
+      | "weightratio" => cmdWeightratio m
       | "pedlabels" => cmdPedlabels m
       | "noncesrc" => cmdNoncesrc m
       | "noncekey" => cmdNoncekey m
